@@ -365,5 +365,10 @@ func extractC17() *lean {
 	l.def("ldProofVerifyErrConds", "List String", leanStrList(ld), ld)
 	ldCalls := c17Calls(funcDecl(ldF, "Verify"))
 	l.def("ldProofVerifyCalls", "List String", leanStrList(ldCalls), ldCalls)
+	_, svF := parseFile("vcr/verifier/signature_verifier.go")
+	vj := c17ErrConds(funcDecl(svF, "jwtSignature"))
+	l.def("vcJwtSignatureErrConds", "List String", leanStrList(vj), vj)
+	vjCalls := c17Calls(funcDecl(svF, "jwtSignature"))
+	l.def("vcJwtSignatureCalls", "List String", leanStrList(vjCalls), vjCalls)
 	return l
 }
